@@ -183,6 +183,28 @@ def order_cases(tier):
     return out
 
 
+def buffer_boundary_cases(tier):
+    """a filler member positions the next entry's extension payload (PAX records, GNU long name, sparse 1.0 map, file data) across the 128 KiB
+    boundary of the input stream buffer; followers show whether the reader is still in step afterwards"""
+    out = []
+    fol = [E(b"~z1", "slink", target=b"~z2"), E(b"~z2", "file", content=content_pattern("fol", 700))]
+    longname = name_of_len(700, 60)
+    regs = 60
+    sp_content = b"".join((content_pattern("r%d" % i, 100) + bytes(412)) for i in range(regs))
+    sp_holes = [(i * 512 + 100, 412) for i in range(regs)]
+    kinds = [("pax-long-path", E(longname, "file", content=b"long path"), "pax"), ("gnu-long-name", E(longname, "file", content=b"long name"), "gnu"),
+             ("gnu-long-link", E(b"sl", "slink", target=longname), "gnu"), ("pax-big-xattr", E(b"x", "file", content=b"x", xattrs={b"user.big": content_pattern("xv", 1500)}), "pax"),
+             ("sparse-1.0-two-map-records", E(b"sp", "file", content=sp_content, holes=sp_holes, sparse="1.0"), "pax"),
+             ("file-data", E(b"data", "file", content=content_pattern("dd", 3000)), "ustar")]
+    for label, ent, dialect in kinds:
+        for delta in ((-1024, -512) if tier == "quick" else (-2048, -1536, -1024, -512, 0)):
+            # the entry's first header record starts at 131072 + delta
+            fsize = 131072 + delta - 512
+            ents = [E(b"0filler", "file", content=content_pattern("fill", fsize)), ent] + fol
+            out.append(("boundary-%s%+d" % (label, delta), ents, dialect))
+    return out
+
+
 def raw_cases(tier):
     """archives with records that must be skipped: PAX global header, unknown typeflag"""
     out = []
@@ -199,7 +221,7 @@ def raw_cases(tier):
 def all_model_cases(tier):
     """list of (label, archive bytes, entries (for the model))"""
     out = []
-    for label, ents, dialect in single_entry_cases(tier) + sparse_cases(tier) + xattr_cases(tier) + order_cases(tier):
+    for label, ents, dialect in single_entry_cases(tier) + sparse_cases(tier) + xattr_cases(tier) + order_cases(tier) + buffer_boundary_cases(tier):
         try:
             out.append((label, tarmk.archive(ents, dialect), ents))
         except ValueError:
